@@ -308,8 +308,9 @@ NORMALISING = {
 
 def run(c, prog):
     _run(c, prog)
-    from . import C01_queue
+    from . import C01_queue, C01_srctype
     C01_queue.run(c, prog)
+    C01_srctype.run(c, prog)
 
 
 def _run(c, prog):
